@@ -16,7 +16,7 @@ def main(tier, seed):
     FIB = ["print", "var", "set", "fn", "call", "call1", "return", "try", "catch", "finally", "throw", "while", "fiber", "exprstmt"]
     q = tier == "quick"
     plan = [
-        {"name": "fibers-exhaustive", "cfg": profcheck.make_cfg("c09x", ["print", "fn", "call1", "fiber", "exprstmt", "return"], 6 if q else 7, names=("a",), fnnames=("f",)),
+        {"name": "fibers-exhaustive", "cfg": profcheck.make_cfg("c09x", ["print", "fn", "call1", "fiber", "exprstmt", "return"], 5 if q else 7, names=("a",), fnnames=("f",)),
          "trigger_free": True},
         {"name": "fibers-simulated", "cfg": profcheck.make_cfg("c09s", FIB, 13, names=("a",), fnnames=("f", "g")), "simulate": 12000 if q else 150000,
          "trigger_free": True},
